@@ -9,7 +9,7 @@ git -C /repo worktree add --detach $wt HEAD >/dev/null 2>&1 || exit 2
 trap 'git -C /repo worktree remove --force '$wt' >/dev/null 2>&1; rm -rf /tmp/benignout' EXIT
 out=seeded/benign/RESULTS.txt; [ -n "${1:-}" ] || : > $out
 ids=$(python3 -c "import json;print(' '.join(c['property_id'] for c in json.load(open('MANIFEST.json'))['checks']))")
-for p in seeded/benign/b*.diff; do
+for p in seeded/benign/[bc]*.diff; do
   n=$(basename $p .diff)
   if [ -n "${1:-}" ] && [[ "$n" != $1* ]]; then continue; fi
   git -C $wt checkout -q -- . ; git -C $wt apply /verif/$p || { echo "$n: patch does not apply" | tee -a $out; continue; }
